@@ -394,7 +394,14 @@ class Scenario:
         self.phase += 1
         wire = self._pools_from_wire()
         if wire != g.pools():
-            raise RuntimeError(f'controller advertised {wire}, geometry set was {g.pools()}')
+            # The controller (bumble code as well) wrote other numbers into its Command Complete events, read by
+            # the spec's byte layout, than the buffers it has. The pools are what the controller HAS; a host that
+            # follows the wrong numbers will show as over-credit / stall / too-long fragments, and the mismatch
+            # itself is reported once.
+            diff = sorted(name for name in set(wire) | set(g.pools()) if wire.get(name) != g.pools().get(name))
+            self.judge.on_exception(self, 'controller-advertises-other-geometry/' + '+'.join(diff),
+                                    RuntimeError(f'on the wire (spec layout): {wire}; buffers the controller has: {g.pools()}'))
+            wire = g.pools()
         self.pools = {name: Pool(name, ln, n) for name, (ln, n) in wire.items()}
         self.r.ev('hostwire_resets')
         if self.phase >= 2:
